@@ -506,4 +506,7 @@ func main() {
 	for name, body := range safeTranslateHandlers(*repo, ints, scalarInts) {
 		w(name, body)
 	}
+	for name, body := range translateGenesis(*repo, ints, scalarInts) {
+		w(name, body)
+	}
 }
